@@ -71,7 +71,7 @@ func H_C20_f16() {
 	vCover("ran")
 }
 
-var vAbsMaxes = []float32{0.0009765625, 0.1, 1, 3, 127, 1000, 1048576}
+var vAbsMaxes = []float32{1e-37, 0.0009765625, 0.1, 1, 3, 127, 1000, 1048576}
 
 // int8: refuses to work untrained; inside the trained range the reconstruction
 // error is <= absMax/254 up to float32 rounding: the bound is attained exactly
